@@ -32,7 +32,7 @@ def gen_case(rng):
     norms_in = [rng.choice([None, None, 'linear(0.5, 1)', 'minmax']) for _ in range(nin)]
     return dict(nin=nin, alpha_lim=alpha_lim, beta_lim=beta_lim, surr_lim=surr_lim, kpl=kpl, domains=domains,
                 norms_in=norms_in, nsteps=rng.randint(3, 9), fseed=rng.randrange(10 ** 9),
-                vectorized=rng.random() < 0.5, cost=rng.choice(['none', 'const', 'alpha']),
+                vectorized=rng.random() < 0.5, cost=rng.choice(['none', 'const', 'alpha', 'nondyadic']),
                 failing=rng.random() < 0.3, shrink=rng.random() < 0.4)
 
 
@@ -43,6 +43,8 @@ def cost_fn(kind):
         return lambda alpha, k: 2.5
     if kind == 'alpha':
         return lambda alpha, k: 0.5 + 2.0 * sum((i + 1) * a for i, a in enumerate(alpha))
+    if kind == 'nondyadic':    # depends on the fidelity only, but is not exactly representable: running means drift by an ulp
+        return lambda alpha, k: 0.9 + 1.4 * sum(alpha)
     if kind == 'varying':
         return lambda alpha, k: 1.0 + (k % 5) * 0.75 + sum(alpha)
     raise ValueError(kind)
@@ -143,6 +145,17 @@ def run_component_case(ctx, res, case, lines, post):
         lines.append('sg.batch ' + ' '.join(fmt_pair(ai, bi[:nd]) for ai, bi in batch))
         got = ';'.join(f'{",".join(map(str, k[0])) or "-"}:{",".join(map(str, k[1]))}' for k in sorted(evals))
         post.append(('batch', case, list(hist), got, [len(xg[n]) for n in names]))
+        # cost accounts of this activation vs the model's bookkeeping (`bookCall`): the model takes the number of new points per index
+        # from ITS OWN design of the batch, and the costs the real model reported in this call grouped by fidelity
+        reps = {}
+        if rec.cost is not None:
+            for k in range(ncalls0, len(rec.calls)):
+                reps.setdefault(tuple(rec.calls[k][0]), []).append(rec.cost(tuple(rec.calls[k][0]), k))
+        lines.append('sg.cost ' + ' '.join(f'{",".join(map(str, al)) or "-"}=' + ','.join(core.rat_str(c) for c in cs)
+                                           for al, cs in reps.items()))
+        post.append(('cost', case, list(hist), [float(comp.misc_costs[ai, bi]) for ai, bi in batch],
+                     [None if comp.model_costs.get(ai) is None else float(comp.model_costs.get(ai)) for ai, bi in batch]))
+        res.hit('cost-accounts-vs-model')
         res.hit('activation')
         if len(rec.calls) == ncalls0:
             res.hit('activation-without-new-evaluations')
@@ -191,10 +204,10 @@ def dup_signature(case, key):
     return 'zero-beta-rerequest' if (case.get('surr_lim') and all(c == 0 for c in key[1])) else 'none'
 
 
-def run_system_case(ctx, res, seed, cost_kind):
+def run_system_case(ctx, res, seed, cost_kind, lines=None, post=None):
     """adaptive training of a 2-component chain; get_allocation vs ground truth"""
     rng = random.Random(seed)
-    na1 = 1 if cost_kind in ('alpha', 'varying') else rng.choice([0, 1])   # per-fidelity costs need model fidelities
+    na1 = 1 if cost_kind in ('alpha', 'varying', 'nondyadic') else rng.choice([0, 1])   # per-fidelity costs need model fidelities
     f1 = lambda alpha, x: {'y1': np.exp(0.4 * x['x0']) * (1 + 0.2 * sum(alpha)) + 0.3 * x['x1']}   # noqa: E731
     f2 = lambda alpha, x: {'y2': np.sin(x['y1']) + 0.5 * x['x1'] ** 2}   # noqa: E731
     from amisc import Component, Variable
@@ -210,9 +223,34 @@ def run_system_case(ctx, res, seed, cost_kind):
     c2 = Component(r2.model(), inputs=[y1, x1], outputs=[y2], name='c2', vectorized=False,
                    data_fidelity=(2, 2), training_data=SparseGrid(**sgk))
     system = System(c1, c2, name='s')
+    logs = {'c1': [], 'c2': []}
+    watch_activations(system['c1'], r1, logs['c1']); watch_activations(system['c2'], r2, logs['c2'])
     np.random.seed(seed % (2 ** 31))
     system.fit(max_iter=rng.randint(5, 9), num_refine=40, max_tol=-np.inf)
     cost_alloc, eval_alloc, cost_cum, eval_cum = system.get_allocation()
+    # the whole adaptive history through the model's bookkeeping: designs (sgRefine / designBatch), accounts (bookCall) and the
+    # report (allocEvals / allocCost) — for EVERY cost profile, the per-call-varying one included (the model mirrors the code)
+    if lines is not None:
+        for cname, rec in (('c1', r1), ('c2', r2)):
+            lines.append('sg.init 2'); post.append(None)
+            alphas = []
+            for batch, n0, n1, misc, avgs in logs[cname]:
+                lines.append('sg.batch ' + ' '.join(fmt_pair(ai, bi) for ai, bi in batch)); post.append(None)
+                reps = {}
+                if rec.cost is not None:
+                    for k in range(n0, n1):
+                        reps.setdefault(tuple(rec.calls[k][0]), []).append(rec.cost(tuple(rec.calls[k][0]), k))
+                lines.append('sg.cost ' + ' '.join(f'{",".join(map(str, al)) or "-"}=' + ','.join(core.rat_str(c) for c in cs)
+                                                   for al, cs in reps.items()))
+                post.append(('cost', {'seed': seed, 'cost_profile': cost_kind, 'component': cname}, [list(ai) + list(bi) for ai, bi in batch], misc, avgs))
+                for ai, _ in batch:
+                    if tuple(ai) not in alphas:
+                        alphas.append(tuple(ai))
+            lines.append('sg.alloc ' + ' '.join(",".join(map(str, al)) or "-" for al in alphas))
+            post.append(('alloc', {'seed': seed, 'cost_profile': cost_kind, 'component': cname}, alphas,
+                         [eval_alloc.get(cname, {}).get(al, 0) for al in alphas], [float(cost_alloc.get(cname, {}).get(al, 0.0)) for al in alphas]))
+            res.hit('allocation-report-vs-model')
+    nlog = {k: len(v) for k, v in logs.items()}
     for cname, rec in (('c1', r1), ('c2', r2)):
         truth_n, truth_c = {}, {}
         for k, (al, x, y) in enumerate(rec.calls):
@@ -234,7 +272,7 @@ def run_system_case(ctx, res, seed, cost_kind):
             res.failures.append({'kind': 'model-evaluated-twice', 'signature': 'none',
                                  'input': {'seed': seed, 'cost_profile': cost_kind, 'component': cname}})
     tot = sum(len(r.calls) for r in (r1, r2))
-    if cost_kind in ('const', 'alpha'):
+    if cost_kind in ('const', 'alpha', 'nondyadic'):
         # a second training history after clear(): the model now reports other costs; the report must be about THIS history
         system.clear()
         newcost = lambda alpha, k: 7.0 + 3.0 * sum(alpha)   # noqa: E731
@@ -266,6 +304,39 @@ def run_system_case(ctx, res, seed, cost_kind):
     res.case(('system', seed, cost_kind), True, {'system': 'c1->c2 chain', 'seed': seed, 'cost_profile': cost_kind,
                                                  'steps': len(system.train_history), 'model_calls': tot})
     res.hit('allocation-' + cost_kind)
+
+
+def check_cost_line(res, o, misc, avgs, info):
+    """compare one `sg.cost` answer (booked costs | averages) with the component's misc_costs / model_costs"""
+    try:
+        mm, ma = [t.split() for t in (o + ' ').split('|')]
+    except ValueError:
+        mm, ma = [], []
+    ok = len(mm) == len(misc) and len(ma) == len(avgs)
+    if ok:
+        for t, v in zip(mm, misc):
+            m = core.parse_rat(t)
+            ok = ok and m is not None and abs(float(m) - v) <= 1e-11 * max(1.0, abs(v))
+        for t, v in zip(ma, avgs):
+            m = core.parse_rat(t)
+            ok = ok and ((m is None and v is None) or (m is not None and v is not None and abs(float(m) - v) <= 1e-11 * max(1.0, abs(v))))
+    if not ok:
+        res.disagreements.append({'name': 'Amisc.bookCall vs Component.activate_index (misc_costs / model_costs)', 'input': info,
+                                  'impl': {'misc_costs': misc, 'model_costs': avgs}, 'model': o})
+
+
+def watch_activations(comp, rec, log):
+    """record, for every activate_index call a System makes, the batch of indices, the slice of model calls and the accounts"""
+    orig = comp.activate_index
+
+    def wrapped(a, b, **kw):
+        nb = comp._neighbors(a, b, forward=True)
+        batch = list(itertools.chain([(a, b)] if (a, b) not in comp.candidate_set else [], nb))
+        n0 = len(rec.calls)
+        orig(a, b, **kw)
+        log.append((batch, n0, len(rec.calls), [float(comp.misc_costs[ai, bi]) for ai, bi in batch],
+                    [None if comp.model_costs.get(ai) is None else float(comp.model_costs.get(ai)) for ai, bi in batch]))
+    object.__setattr__(comp, 'activate_index', wrapped)
 
 
 def run_latent_case(ctx, res, seed):
@@ -380,19 +451,33 @@ def run(ctx: core.Ctx, only=None) -> core.Result:
             continue
         if 'cost_profile' in case and 'nin' not in case:
             with core.guarded(res, 'scenario-raised', case):
-                run_system_case(ctx, res, case['seed'], case['cost_profile'])
+                run_system_case(ctx, res, case['seed'], case['cost_profile'], lines, post)
             continue
         case = {k: (tuple(case[k]) if k.endswith('_lim') else case.get(k, False)) for k in keys}
         with core.guarded(res, 'scenario-raised', case):
             run_component_case(ctx, res, case, lines, post)
     if only is None:
-        for k in range(ctx.scale(3, 16)):
+        for k in range(ctx.scale(5, 20)):
             sd = ctx.rng.randrange(10 ** 6)
-            with core.guarded(res, 'scenario-raised', {'seed': sd, 'cost_profile': ['const', 'alpha', 'none', 'varying'][k % 4]}):
-                run_system_case(ctx, res, sd, ['const', 'alpha', 'none', 'varying'][k % 4])
+            prof = ['nondyadic', 'varying', 'alpha', 'none', 'const'][k % 5]
+            with core.guarded(res, 'scenario-raised', {'seed': sd, 'cost_profile': prof}):
+                run_system_case(ctx, res, sd, prof, lines, post)
     out = core.try_driver(lines, res, 'Amisc.activateBatch')
     for pst, o in zip(post, out or []):
         if pst is None:
+            continue
+        if pst[0] == 'cost':
+            _, case, hist, misc, avgs = pst
+            check_cost_line(res, o, misc, avgs, {**case, 'history': hist})
+            continue
+        if pst[0] == 'alloc':
+            _, info, alphas, evals, costs = pst
+            for al, tok, ev, co in zip(alphas, o.split(), evals, costs):
+                mev, mco = tok.split(':')
+                mco = core.parse_rat(mco)
+                if int(mev) != int(ev) or abs(float(mco) - co) > 1e-9 * max(1.0, abs(co)):
+                    res.disagreements.append({'name': 'Amisc.allocEvals / allocCost vs System.get_allocation', 'input': {**info, 'alpha': list(al)},
+                                              'impl': {'evals': ev, 'cost': co}, 'model': {'evals': int(mev), 'cost': float(mco)}})
             continue
         _, case, hist, got, glen = pst
         model_keys, model_len = [s.strip() for s in o.split('|')]
